@@ -55,6 +55,8 @@ pub enum DomOp {
     CreateComment(Handle, Seq<char>),
     AddAttrsIfMissing(Handle, Seq<Attribute>),
     MaybeCloneOption(Handle),
+    MarkScriptAlreadyStarted(Handle),
+    SetQuirksMode(QuirksMode),
     AssociateWithForm(Handle, Handle, Handle, Option<Handle>),
 }
 /// the handle the sink hands out for the k-th element it creates (ASSUMED: a new one each time)
@@ -104,6 +106,10 @@ impl Sink {
     pub fn add_attrs_if_missing(&mut self, target: &Handle, attrs: Vec<Attribute>) ensures *final(self) == (Sink { dom: Ghost(old(self).dom@.push(DomOp::AddAttrsIfMissing(*target, attrs@))), ..*old(self) }) { unimplemented!() }
     #[verifier::external_body]
     pub fn maybe_clone_an_option_into_selectedcontent(&mut self, option: &Handle) ensures *final(self) == (Sink { dom: Ghost(old(self).dom@.push(DomOp::MaybeCloneOption(*option))), ..*old(self) }) { unimplemented!() }
+    #[verifier::external_body]
+    pub fn mark_script_already_started(&mut self, node: &Handle) ensures *final(self) == (Sink { dom: Ghost(old(self).dom@.push(DomOp::MarkScriptAlreadyStarted(*node))), ..*old(self) }) { unimplemented!() }
+    #[verifier::external_body]
+    pub fn set_quirks_mode(&mut self, mode: QuirksMode) ensures *final(self) == (Sink { dom: Ghost(old(self).dom@.push(DomOp::SetQuirksMode(mode))), ..*old(self) }) { unimplemented!() }
     #[verifier::external_body]
     pub fn create_comment(&mut self, text: StrTendril) -> (r: Handle)
         ensures r == fresh_handle(old(self).created@),
